@@ -566,6 +566,19 @@ func aliasHistory(r *RNG, cfg string, blobLen int) *hist {
 
 func extraC08(col *Collector, r *RNG, tier string) {
 	m := sharedMaster()
+	np := 40
+	if tier == "thorough" {
+		np = 800
+	}
+	po := histOpts{maxUnits: 5, maxStmts: 3, maxRows: 3, maxCols: 16, maxTables: 3, files: true, ignorable: true, allowTZ: true, casing: false}
+	for i := 0; i < np; i++ {
+		hh := genHistory(r, po, allCfgs[i%len(allCfgs)])
+		provenanceCheck(col, hh)
+		reusedBufferCheck(col, hh)
+	}
+	for i := 0; i < np/4; i++ {
+		provenanceCheck(col, aliasHistory(r, allCfgs[i%len(allCfgs)], r.Intn(50)))
+	}
 	targets := []int{0, 4091, 4092, 4093, 4094, 4095, 4096, 4097, 8187, 8190, 8192, 8193}
 	if tier == "thorough" {
 		targets = append(targets, 262139, 262140, 262141, 262142, 262143, 262144, 262145, 16383, 16384, 16385)
